@@ -48,6 +48,12 @@ NOT_DECIDED = ('everything a sanitizer would observe at run time: arithmetic ins
                'use-after-free and alignment. DESIGN clause (b) "I6 for bounds/wraparound flags" is NOT armed here: on the emitted calls that carry these flags the generic '
                'mutual-swap rule has 3 resolvable sites and cannot see a swap (C parameter has_cstart vs Python name has_c_start), while C15-FLAGS / C15-SLICE / C16-TPL decide '
                'the name-aligned order of exactly these constructs with their own normalisation. Cross data models (ILP32, LLP64) are evaluated and reported as information only, because only the host result can be confirmed by running.')
+DECIDES += (' C36-RAISEEXIT (rules/s8C36.py, round 8): for every exception-setting call (__Pyx_Raise*, PyErr_SetString / Format / SetNone / SetObject / NoMemory) emitted by a generator function of '
+            'Cython/Compiler, on every path of the generator (Python AST, block structure of the emitted C tracked across emissions, else arms skipped): an unconditional exit (goto / return / '
+            'error_goto / put_goto) is emitted before an unconditional plain C statement that follows the closed raising block - unless a later conditional error exit tests an operand of a '
+            'condition enclosing the raise (the `retcode < 0` idiom of Buffer.put_assign_to_buffer).')
+NOT_DECIDED += (' RAISEEXIT: raise emissions whose generator function ends (or only emits labels / conditional statements) before an exit or a plain statement hand the obligation to the callers '
+                '(counted, information only: no interprocedural continuation); loops of the generator are walked zero / one time; raises inside the C utility files are not covered (C22 / C35 own those).')
 ASSUMPTIONS = ['operands of a C integer division node have been coerced to the result type, so the operand type equals the result type in the witness',
                'the host clang target has the data model of the platform the extension is built on']
 EXEMPT = {
@@ -671,4 +677,9 @@ def run(ctx):
     rules = [rule_w1(ctx), rule_p2(ctx), rule_scope(ctx), rule_V3_attr(ctx, rid='C36-V3'), slicenorm.rule_slice(ctx), sC36.rule_ovf(ctx)]
     # fourth round: the emitted index checks, the index predicate all fast paths share, initialisation checks, shift widths
     rules += [sC36.rule_bounds(ctx), sC36.rule_validx(ctx), sC36.rule_init(ctx), sC36.rule_shiftw(ctx)]
+    # round 8: an emitted exception-setting call is followed by an exit before normal-path statements (seed C36l)
+    from ..rules import s8C36
+    rules.append(s8C36.rule_raise_exit(ctx))
+    from ..rules import dD10
+    rules.append(dD10.rule_idxovf(ctx))      # C13-IDXOVF: no signed overflow of index arithmetic in the builtin helpers (shared with C13; repairs 43a8e0658, 23cdba3dd)
     return rules
